@@ -9,7 +9,12 @@ correspond:  part A — histories over {create array, call cached function, writ
 oracle:      part A — every returned value equals an uncached evaluation on the current argument;
              part B — histories on position / time *objects* (convert, derived quantities, item assignment, attach /
              replace / mutate `other`, slices, equal-valued objects of other shape or format) run twice on the real
-             code: naturally, and with every cache flushed before each operation; the observations must agree
+             code: naturally, and with every cache flushed before each operation; the observations must agree;
+             part C — the object machine (Model/ObjCache.lean: views sharing memory, attachment chains of any depth, other /
+             ref_pos, item assignment, reads) against real Position / PositionDelta objects;
+             part D — harness/c08_hist.py: every way of deriving a position object x read / change / read again, and every
+             method taking another object x call / change the argument / call again, against the same history without the
+             early reads and against freshly built twins
 """
 from __future__ import annotations
 
@@ -426,6 +431,8 @@ def obj_ops_alphabet():
         ("conv", 12, "kepler"), ("conv", 13, "trs"), ("kprop", 13, "M"), ("kprop", 13, "f"), ("kprop", 13, "E"), ("ksetitem", 13, 5),
         ("ksetitem", 13, 1), ("kprop", 14, "M"), ("kprop", 14, "f"), ("ksetitem", 14, 5), ("conv", 14, "trs"), ("setitem6", 12, 3),
         ("kprop", "K", "M"), ("kprop", "K", "f"), ("kslice", 13, (1, 3)), ("ksetitem", "K", 5),
+        # min / max / mean of equal epochs held in different formats (the result carries the format of the receiver)
+        ("tmax", 15, "max"), ("tmax", 16, "max"), ("tmax", 15, "min"), ("tmax", 16, "min"), ("tmax", 17, "mean"), ("tmax", 18, "mean"),
     ]
 
 
@@ -458,6 +465,12 @@ def build_objects(mods):
     kep = np.array([[7.0e6, 0.01, 0.9, 1.0, 2.0, 0.5], [8.0e6, 0.2, 2.0, -1.0, 4.0, -2.5], [2.6e7, 0.7, 0.3, 3.0, 0.1, 3.0], [4.2e7, 0.05, 1.5, 0.2, 5.5, 1.2]])
     objs.append(PV(kep, system="kepler"))                           # 13 Keplerian elements (n, 6)
     objs.append(PV(kep[1].copy(), system="kepler"))                 # 14 single set of elements
+    # two time arrays with exactly the same two-part Julian dates (equal and hash-equal), one in datetime and one in jd format
+    tdt = Time(tj.datetime, fmt="datetime", scale="utc")
+    objs.append(tdt)                                                 # 15
+    objs.append(Time(np.array(tdt.jd1), val2=np.array(tdt.jd2), fmt="jd", scale="utc"))  # 16
+    objs.append(Time(np.array(tdt.jd1)[:1], val2=np.array(tdt.jd2)[:1], fmt="jd", scale="utc"))  # 17 one epoch (mean returns self)
+    objs.append(Time(tdt.datetime[:1], fmt="datetime", scale="utc"))  # 18 the same epoch in datetime format
     return objs
 
 
@@ -595,7 +608,7 @@ def run_obj_history(w: ObjWorld, ops, rng_state=None):
                 if kind == "tindex":
                     obs.append(w.observe(o[arg]) if np.ndim(o.jd1) else ("scalar",))
                 elif kind == "tmax":
-                    obs.append(w.observe(o.max) if np.ndim(o.jd1) else ("scalar",))
+                    obs.append(w.observe(getattr(o, arg or "max")) if np.ndim(o.jd1) else ("scalar",))
                 elif kind == "tslice":
                     if np.ndim(o.jd1):
                         r = o[arg[0]:arg[1]]
@@ -650,8 +663,26 @@ PAL = _pal_rows()
 
 
 def gen_obj_history(rng, length):
-    """operations of the object machine; keeps its own picture of (rows, other) to stay well-formed"""
-    ops, objs = [], []  # objs: dict(n=rows, other=index or None)
+    """operations of the object machine; keeps its own picture of (rows, attached object, kind) to stay well-formed.
+    Kinds: a position (attached object = `other`) or a position delta (attached object = `ref_pos`, always a position);
+    attachment chains of any depth (the other of an other, the other of a ref_pos), never cyclic."""
+    ops, objs = [], []  # objs: dict(n=rows, other=index or None, kind="pos"|"delta", single=bool)
+
+    def chain(i):
+        out = []
+        while objs[i]["other"] is not None:
+            i = objs[i]["other"]
+            out.append(i)
+        return out
+
+    def push_views(p, n, single):
+        # the model (and the real __getitem__) makes the views innermost first
+        members = [p] + chain(p)
+        prev = None
+        for m in reversed(members):
+            objs.append({"n": n, "other": prev, "kind": objs[m]["kind"], "single": single})
+            prev = len(objs) - 1
+
     for _ in range(length):
         k = rng.random()
         # a single row taken with an integer index is a (3,) position: indexing it addresses coordinates, not rows
@@ -659,62 +690,86 @@ def gen_obj_history(rng, length):
         anyrow = [i for i, o in enumerate(objs) if o["n"] > 0]
         if not objs or k < 0.12:
             n = rng.randint(1, 5)
-            ops.append("create:" + ",".join(str(rng.randrange(12)) for _ in range(n)))
-            objs.append({"n": n, "other": None})
-        elif k < 0.27 and nonempty:
+            refs = [i for i, o in enumerate(objs) if o["kind"] == "pos" and o["n"] == n and not o.get("single")]
+            if refs and rng.random() < 0.45:
+                # a position delta is made with its reference position (a delta without one cannot even be indexed)
+                q = rng.choice(refs)
+                ops.append("created:" + ",".join(str(rng.randrange(12)) for _ in range(n)) + f":{q}")
+                objs.append({"n": n, "other": q, "kind": "delta", "single": False})
+            else:
+                ops.append("create:" + ",".join(str(rng.randrange(12)) for _ in range(n)))
+                objs.append({"n": n, "other": None, "kind": "pos", "single": False})
+        elif k < 0.25 and nonempty:
             p = rng.choice(nonempty)
             a = rng.randrange(objs[p]["n"])
             b = rng.randint(a + 1, objs[p]["n"])
             rows = list(range(a, b))
             ops.append(f"view:{p}:" + ",".join(map(str, rows)))
-            if objs[p]["other"] is not None:
-                objs.append({"n": len(rows), "other": None})
-                objs.append({"n": len(rows), "other": len(objs) - 1})
-            else:
-                objs.append({"n": len(rows), "other": None})
-        elif k < 0.33 and nonempty:
+            push_views(p, len(rows), False)
+        elif k < 0.30 and nonempty:
             p = rng.choice(nonempty)
             ops.append(f"viewi:{p}:{rng.randrange(objs[p]['n'])}:{rng.randrange(4)}")
-            if objs[p]["other"] is not None:
-                objs.append({"n": 1, "other": None, "single": True})
-                objs.append({"n": 1, "other": len(objs) - 1, "single": True})
+            push_views(p, 1, True)
+        elif k < 0.35 and objs:
+            # a view of all rows made by NumPy itself (no __getitem__(int|slice)): only __array_finalize__ runs; the attached
+            # object is taken over as it is, so only for objects without one (the model's view slices the chain)
+            cands = [i for i, o in enumerate(objs) if o["other"] is None and o["n"] > 0]
+            if cands:
+                p = rng.choice(cands)
+                ops.append(f"viewn:{p}:{rng.randrange(6)}")
+                objs.append({"n": objs[p]["n"], "other": None, "kind": objs[p]["kind"], "single": objs[p].get("single", False)})
             else:
-                objs.append({"n": 1, "other": None, "single": True})
-        elif k < 0.38 and nonempty:
-            p = rng.choice(nonempty)
+                ops.append(f"readconv:{rng.randrange(len(objs))}")
+        elif k < 0.39 and [i for i in nonempty if objs[i]["kind"] == "pos"]:
+            p = rng.choice([i for i in nonempty if objs[i]["kind"] == "pos"])
             rows = [rng.randrange(objs[p]["n"]) for _ in range(rng.randint(1, 4))]
             ops.append(f"take:{p}:" + ",".join(map(str, rows)))
-            objs.append({"n": len(rows), "other": None})
-        elif k < 0.52:
+            objs.append({"n": len(rows), "other": None, "kind": objs[p]["kind"], "single": False})
+        elif k < 0.54:
             p = rng.randrange(len(objs))
-            # attachment chains (the other of an other) are outside the model: `p[a:b]` slices them recursively in the
-            # real code (and recurses forever on a cycle), the model's view of the other carries no other of its own
-            is_other = {o["other"] for o in objs if o["other"] is not None}
+            # the attached object is a position with as many rows; no cycles (the real p[a:b] would recurse forever)
             cands = [i for i, o in enumerate(objs) if o["n"] == objs[p]["n"] and bool(o.get("single")) == bool(objs[p].get("single"))
-                     and i != p and o["other"] is None and p not in is_other]
-            if cands and rng.random() < 0.85:
+                     and i != p and o["kind"] == "pos" and p not in chain(i)]
+            if cands and (rng.random() < 0.85 or objs[p]["kind"] == "delta"):
                 q = rng.choice(cands)
                 ops.append(f"setother:{p}:{q}")
                 objs[p]["other"] = q
+            elif objs[p]["kind"] == "delta":
+                ops.append(f"readder:{p}")
             else:
                 ops.append(f"setother:{p}:-")
                 objs[p]["other"] = None
         elif k < 0.72 and anyrow:
             p = rng.choice(anyrow)
             ops.append(f"setitem:{p}:{rng.randrange(objs[p]['n'])}:{rng.randrange(12)}")
-        elif k < 0.86:
-            ops.append(f"readconv:{rng.randrange(len(objs))}")
+        elif k < 0.84:
+            pos = [i for i, o in enumerate(objs) if o["kind"] == "pos"]
+            ops.append(f"readconv:{rng.choice(pos)}" if pos else f"readder:{rng.randrange(len(objs))}")
         else:
             ops.append(f"readder:{rng.randrange(len(objs))}")
     return ops
 
 
+def _att(o):
+    return "ref_pos" if "Delta" in o.cls_name else "other"
+
+
 def run_obj_machine(ctx, mods, ops, label):
     tr, rot, ell, nputil, T, Time, position = mods
-    P = position.Position
+    P, PD = position.Position, position.PositionDelta
     objs = []
-    outs = []  # ("D",) | ("C", array) | ("R", array) | ("B",)
+    outs = []  # ("D",) | ("C", array) | ("R", array) | ("E", array) | ("B",)
     case = {"object_machine": ops}
+
+    def add_with_chain(r):
+        # the views of the attached objects came into being first (innermost first), then the rows themselves
+        members, x = [], r
+        while getattr(x, _att(x), None) is not None:
+            x = getattr(x, _att(x))
+            members.append(x)
+        objs.extend(reversed(members))
+        objs.append(r)
+
     for op in ops:
         t = op.split(":")
         try:
@@ -722,32 +777,39 @@ def run_obj_machine(ctx, mods, ops, label):
                 ids = [int(x) for x in t[1].split(",")]
                 objs.append(P(PAL[ids].copy(), system="trs"))
                 outs.append(("D",))
+            elif t[0] == "created":
+                # a delta made with its reference position: for the model a create followed by the attachment
+                ids = [int(x) for x in t[1].split(",")]
+                outs += [("D",), ("D",)]
+                objs.append(PD(PAL[ids].copy(), system="trs", ref_pos=objs[int(t[2])]))
             elif t[0] == "view":
                 p = int(t[1])
                 rows = [int(x) for x in t[2].split(",")]
-                r = objs[p][rows[0]:rows[-1] + 1]
-                if getattr(objs[p], "other", None) is not None:
-                    objs.append(r.other)
-                objs.append(r)
+                add_with_chain(objs[p][rows[0]:rows[-1] + 1])
                 outs.append(("D",))
             elif t[0] == "viewi":
                 # one row taken with an integer index: a Python int, a NumPy integer, or a 0-d integer array element
                 p, k, variant = int(t[1]), int(t[2]), int(t[3])
                 idx = [k, np.int64(k), np.arange(k + 1)[k], np.intp(k)][variant]
-                r = objs[p][idx]
-                if getattr(objs[p], "other", None) is not None:
-                    objs.append(r.other)
-                objs.append(r)
+                add_with_chain(objs[p][idx])
+                outs.append(("D",))
+            elif t[0] == "viewn":
+                p, variant = int(t[1]), int(t[2])
+                o = objs[p]
+                makers = [lambda o: o.view(), lambda o: o[...], lambda o: o.reshape(o.shape), lambda o: o[:, :] if o.ndim == 2 else o[..., :],
+                          lambda o: np.asanyarray(o)[...], lambda o: type(o)(o, **({"ref_pos": None} if "Delta" in o.cls_name else {}))]
+                objs.append(makers[variant](o))
                 outs.append(("D",))
             elif t[0] == "take":
                 p = int(t[1])
                 rows = [int(x) for x in t[2].split(",")]
                 r = objs[p][rows]
-                r.other = None  # the model's `take` is a bare copy of the rows
+                setattr(r, _att(r), None)  # the model's `take` is a bare copy of the rows
                 objs.append(r)
                 outs.append(("D",))
             elif t[0] == "setother":
-                objs[int(t[1])].other = None if t[2] == "-" else objs[int(t[2])]
+                o = objs[int(t[1])]
+                setattr(o, _att(o), None if t[2] == "-" else objs[int(t[2])])
                 outs.append(("D",))
             elif t[0] == "setitem":
                 o = objs[int(t[1])]
@@ -762,21 +824,61 @@ def run_obj_machine(ctx, mods, ops, label):
                 outs.append(("C", np.atleast_2d(np.asarray(objs[int(t[1])].llh, dtype=float)).copy()))
             elif t[0] == "readder":
                 o = objs[int(t[1])]
-                if getattr(o, "other", None) is None:
+                if getattr(o, _att(o), None) is None:
                     outs.append(("B",))
+                elif "Delta" in o.cls_name:
+                    outs.append(("E", np.atleast_2d(np.asarray(o.enu, dtype=float)).copy()))
                 else:
                     outs.append(("R", np.atleast_2d(np.asarray(o.direction, dtype=float)).copy()))
         except Exception as e:
             outs.append(("ERR", type(e).__name__))
-    mops = [":".join(["view"] + o.split(":")[1:3]) if o.startswith("viewi:") else o for o in ops]
+
+    def mop(o):
+        t = o.split(":")
+        if t[0] == "viewi":
+            return ":".join(["view"] + t[1:3])
+        if t[0] == "viewn":
+            n = len(objs[int(t[1])]) if int(t[1]) < len(objs) else 1
+            return f"view:{t[1]}:" + ",".join(str(k) for k in range(max(1, n)))
+        return o
+    # `created` names the new object in the model's numbering: views add one object per chain member, so after a view the
+    # count is asked from the model (the reference for ids)
+    mops, opix, nobj, dirty = [], [], 0, False
+    for i, o in enumerate(ops):
+        t = o.split(":")
+        if t[0] == "created":
+            if dirty:
+                nobj, dirty = int(ctx.driver.ask1("c08 objcount src " + " ".join(mops))), False
+            mops += ["create:" + t[1], f"setother:{nobj}:{t[2]}"]
+            opix += [i, i]
+            nobj += 1
+        else:
+            mops.append(mop(o))
+            opix.append(i)
+            if t[0] in ("create", "take", "viewn"):
+                nobj += 1
+            elif t[0] in ("view", "viewi"):
+                dirty = True
     model = ctx.driver.ask1("c08 obj src " + " ".join(mops)).split("|")
     ctx.case(["C", label, ops], nontrivial=sum(o.startswith("read") for o in ops) > 1)
     ctx.count("C:object-machine")
+    for o in ops:
+        if o.split(":")[0] in ("created", "viewn"):
+            ctx.count("C:op:" + o.split(":")[0])
+    depth = 0
+    for x in objs:
+        d = 0
+        while getattr(x, _att(x), None) is not None and d < 50:
+            x = getattr(x, _att(x))
+            d += 1
+        depth = max(depth, d)
+    ctx.count(f"C:max-chain-depth:{min(depth, 4)}{'+' if depth >= 4 else ''}")
     llh_of = lambda ids: tr._trs2llh.__wrapped__(nputil.HashArray(PAL[ids]), ell.GRS80)
     if len(model) != len(outs):
         ctx.disagree("object cache machine (length)", case, model, [o[0] for o in outs])
         return
-    for k, (m, o) in enumerate(zip(model, outs)):
+    for j, (m, o) in enumerate(zip(model, outs)):
+        k = opix[j]
         kind = m.split(":")[0]
         ok = True
         if kind in ("D", "B"):
@@ -785,6 +887,13 @@ def run_obj_machine(ctx, mods, ops, label):
             ids = [int(x) for x in m.split(":")[1].split(",")]
             exp = llh_of(ids)
             ok = o[0] == "C" and o[1].shape == exp.shape and bool(np.all(np.abs(o[1] - exp) <= np.array([1e-11, 1e-11, 1e-5])))
+        elif kind == "R" and o[0] == "E":
+            # a position delta: its conversion to the local system of the (current) reference position
+            a = [int(x) for x in m.split(":")[1].split(",")]
+            b = [int(x) for x in m.split(":")[2].split(",")]
+            exp = np.atleast_2d(np.asarray(PD(PAL[a].copy(), system="trs", ref_pos=P(PAL[b].copy(), system="trs")).enu, dtype=float))
+            ok = o[1].shape == exp.shape and bool(np.all(np.abs(o[1] - exp) <= 1e-9 * np.maximum(1.0, np.abs(exp))))
+            ctx.count("C:read:delta.enu")
         elif kind == "R":
             a = [int(x) for x in m.split(":")[1].split(",")]
             b = [int(x) for x in m.split(":")[2].split(",")]
@@ -824,7 +933,11 @@ def run(ctx: Ctx):
                     "NumPy view/copy semantics of asarray/view/.copy() are modelled (which buffers alias), validated by the write-into-result steps"]
     ctx.assumptions += ["writing into an object's own converted result (p.llh[...] = x) is allowed to show up in later reads of that same object's "
                         "cache until it is invalidated; only effects on *other* objects are checked (statement: 'for other objects')",
-                        "the per-object caches with weak-reference invalidation (PosBase._cache/_dependent_objs) are covered by part B on the real code only"]
+                        "only item assignment (__setitem__, any key) and attribute assignment count as changes of a position; np.copyto / out= / "
+                        ".fill / writes through .val bypass __setitem__ and are outside the wording of the property",
+                        "part D compares a history with early reads against the same history without them (exactly) and against freshly built "
+                        "twins (1e-9); reads of the source after writing into an object it holds in its own cache (its conversion, .pos, .vel) "
+                        "are not compared (first assumption)"]
     L = 3 if ctx.thorough else 2
     groups = [GroupRaw(n, mods) for n in ("trs2llh", "llh2trs", "enu2trs", "trs2enu")]
     gt = GroupTime(mods)
@@ -936,6 +1049,17 @@ def run(ctx: Ctx):
         ["create:1,2,3,4", "readconv:0", "view:0:0,1", "view:1:0", "setitem:2:0:7", "readconv:0", "readconv:1"],
         ["create:1,2,3,4", "create:5,6,7,8", "setother:0:1", "readder:0", "view:0:1,2", "readder:3", "setitem:2:0:9", "readder:3", "readder:0",
          "setitem:1:3:2", "readder:0", "setother:0:-", "readder:0"],
+    ]
+    fixed += [
+        # a chain of three (a -> b -> c): rows of a are rows of b and of c too; writes through the innermost rows
+        ["create:1,2,3", "create:4,5,6", "create:7,8,9", "setother:0:1", "setother:1:2", "readder:0", "readder:1", "view:0:0,1", "readder:5",
+         "readder:4", "setitem:3:0:11", "readder:4", "readder:1", "readder:5", "setitem:4:1:10", "readder:5", "readder:0", "readconv:1"],
+        # a delta whose reference position has an other of its own
+        ["create:4,5,6", "create:7,8,9", "created:1,2,3:0", "setother:0:1", "readder:2", "view:2:1,2", "readder:5", "setitem:4:0:9",
+         "readder:5", "readder:2", "setitem:0:2:3", "readder:2", "readder:5", "viewi:2:2:1", "readder:8", "setitem:0:2:0", "readder:8"],
+        # views NumPy makes by itself share the memory and the invalidation
+        ["create:1,2,3", "readconv:0", "viewn:0:0", "viewn:0:1", "viewn:1:2", "viewn:0:3", "viewn:0:5", "readconv:1", "readconv:3", "setitem:0:1:9",
+         "readconv:1", "readconv:3", "readconv:4", "readconv:5", "setitem:3:0:8", "readconv:0", "readconv:2", "readconv:5"],
     ]
     for h in fixed:
         run_obj_machine(ctx, mods, h, "fixed")
